@@ -867,10 +867,10 @@ fn token_expiry(two_pings: bool) {
 }
 
 //@ ob: C15.O3c
-//@ tier: quick
-//@ cap: 800
+//@ tier: thorough
+//@ cap: 2400
 //@ rss: 8
-//@ time: 620
+//@ time: 694
 //@ standins: tracing lru vcoll
 //@ desc: token expiry on a node that keeps receiving requests of any kind: a token issued with a get_peers reply at t0, followed by two further requests that carry no token (pings) more than 300 s apart, is refused with 203 when presented afterwards
 //@ bounds: symbolic secrets and fresh random bytes (assumed to differ from the issuing secret); gaps d1, d2 symbolic in 301..=1000 s, d3 symbolic <= 1000 s; 4 requests (get_peers, ping, ping, announce_peer); unwind 26
@@ -889,11 +889,11 @@ fn c15_o3c_token_expires_under_any_traffic() {
 }
 
 //@ ob: C15.O3d
-//@ also: C03
-//@ tier: quick
-//@ cap: 800
+//@ tier: thorough
+//@ cap: 2400
 //@ rss: 8
-//@ time: 291
+//@ time: 637
+//@ also: C03
 //@ standins: tracing lru vcoll
 //@ desc: token expiry when the put itself triggers the second rotation: a token issued with a get_peers reply at t0, one later request (a ping) more than 300 s after it, then more than 300 s of silence: the put presenting the old token is refused with 203 -- the token is checked against the secrets as they are AFTER the rotation its own arrival causes, so an idle node does not honour arbitrarily old tokens
 //@ bounds: symbolic secrets and fresh random bytes (assumed to differ from the issuing secret); gaps d1, d2 symbolic in 301..=1000 s, d3 symbolic <= 1000 s; 4 requests (get_peers, ping, ping, announce_peer); unwind 26
